@@ -3,8 +3,10 @@ module verifharness
 go 1.26.8
 
 require (
+	github.com/pelletier/go-toml v1.9.5
 	github.com/spf13/pflag v1.0.5
 	github.com/vimeo/dials v0.0.0
+	gopkg.in/yaml.v2 v2.4.0
 	pgregory.net/rapid v1.3.0
 )
 
@@ -15,11 +17,9 @@ require (
 	github.com/fsnotify/fsnotify v1.8.0 // indirect
 	github.com/google/uuid v1.6.0 // indirect
 	github.com/mpvl/unique v0.0.0-20150818121801-cbe035fff7de // indirect
-	github.com/pelletier/go-toml v1.9.5 // indirect
 	golang.org/x/net v0.30.0 // indirect
 	golang.org/x/sys v0.26.0 // indirect
 	golang.org/x/text v0.19.0 // indirect
-	gopkg.in/yaml.v2 v2.4.0 // indirect
 	gopkg.in/yaml.v3 v3.0.1 // indirect
 )
 
